@@ -237,3 +237,67 @@ Example C03_faults_example :
   active s = true /\ jobs s = [1; 1] /\ do_ (getn (ns s) 1) = [1; 2] /\
   map (fun m => (m_job m, m_tgt m)) (cluster s') = [(1, 1); (1, 2)] /\ jobs s' = [].
 Proof. vm_compute. repeat split; reflexivity. Qed.
+
+(* ---- the todo set of the model IS dawgie.util.fifo.Unique (translation + proof) -------
+   Gen/FifoGen.v is regenerated on every run from dawgie/util/fifo.py (class
+   Unique: the object is the pair (__order, __unique)) by the fail-closed
+   translator tools/translate/fifo2coq.py.  The model keeps `todo` as a list
+   handled with Sched.add / addl / rem / mem.  Under the class invariant
+   FifoGenEq.uinv (both containers hold the same elements, no duplicates --
+   established by the constructor, preserved by every method) the generated
+   methods are those list functions; discard never raises.  (Qualified names
+   on purpose: nothing is imported.) *)
+From DV Require Gen.FifoGen Proofs.FifoGenEq.
+
+Theorem C03_unique_new_is_source : forall it,
+  fst (FifoGen.init it) = Sched.addl it [] /\ FifoGenEq.uinv (FifoGen.init it).
+Proof. exact FifoGenEq.init_gen_eq. Qed.
+Print Assumptions C03_unique_new_is_source.
+
+Theorem C03_unique_add_is_source : forall st v, FifoGenEq.uinv st ->
+  fst (FifoGen.add st v) = Sched.add v (fst st) /\ FifoGenEq.uinv (FifoGen.add st v).
+Proof. exact FifoGenEq.add_gen_eq. Qed.
+Print Assumptions C03_unique_add_is_source.
+
+Theorem C03_unique_update_is_source : forall st it, FifoGenEq.uinv st ->
+  fst (FifoGen.update st it) = Sched.addl it (fst st) /\ FifoGenEq.uinv (FifoGen.update st it).
+Proof. exact FifoGenEq.update_gen_eq. Qed.
+Print Assumptions C03_unique_update_is_source.
+
+Theorem C03_unique_discard_is_source : forall st v, FifoGenEq.uinv st ->
+  exists st', FifoGen.discard st v = Some st' /\
+              fst st' = Sched.rem v (fst st) /\ FifoGenEq.uinv st'.
+Proof. exact FifoGenEq.discard_gen_eq. Qed.
+Print Assumptions C03_unique_discard_is_source.
+
+Theorem C03_unique_observers_are_source : forall st v, FifoGenEq.uinv st ->
+  FifoGen.contains st v = Sched.mem v (fst st) /\
+  FifoGen.iter st = fst st /\
+  FifoGen.len st = length (fst st) /\
+  fst (FifoGen.copy st) = fst st /\
+  (forall other x, In x (FifoGen.difference st other) <-> In x (fst st) /\ ~ In x other).
+Proof.
+  intros st v I. split; [now apply FifoGenEq.contains_gen_eq|].
+  split; [apply FifoGenEq.iter_gen_eq|]. split; [now apply FifoGenEq.len_gen_eq|].
+  split; [now apply FifoGenEq.copy_gen_eq|]. intros other x. now apply FifoGenEq.difference_gen_eq.
+Qed.
+Print Assumptions C03_unique_observers_are_source.
+
+(* every object a program can build: constructor, then any sequence of
+   add / discard / update -- no guard left *)
+Theorem C03_unique_is_todo_list : forall it ops,
+  exists st, fold_left FifoGenEq.uapply ops (Some (FifoGen.init it)) = Some st /\
+             FifoGen.iter st = fold_left FifoGenEq.sapply ops (Sched.addl it []) /\
+             FifoGenEq.uinv st.
+Proof. exact FifoGenEq.unique_is_sched_lists. Qed.
+Print Assumptions C03_unique_is_todo_list.
+
+Example C03_unique_example :
+  FifoGenEq.uinv (FifoGen.init [3; 1; 3]) /\
+  FifoGen.iter (FifoGen.init [3; 1; 3]) = [3; 1] /\
+  option_map FifoGen.iter (FifoGen.discard (FifoGen.add (FifoGen.init [3; 1; 3]) 2) 3) = Some [1; 2] /\
+  FifoGen.discard ([3], []) 3 = Some ([3], []) /\        (* the invariant is needed: *)
+  FifoGen.discard ([], [3]) 3 = None.                     (* out-of-sync containers raise *)
+Proof.
+  split; [apply FifoGenEq.init_gen_eq|]. vm_compute. repeat split; reflexivity.
+Qed.
